@@ -94,7 +94,7 @@ Lemma meta_matches_stored name p pm v m d :
   create_props_metadata name p = Ok pm -> encode_prop p = Ok (v, m, d) ->
   (pm_varlength pm = false /\ d = None /\ a_dt v = pm_dtype pm) \/
   (pm_varlength pm = true /\ a_dt v = DU64 /\ exists da, d = Some da /\ a_dt da = pm_dtype pm).
-Proof. unfold create_props_metadata, encode_prop. destruct (p_vals (upcast_prop p)) as [a|elems].
+Proof. intros Hcpm0; apply cpm_core_of_ok in Hcpm0; revert Hcpm0. unfold cpm_core, encode_prop. destruct (p_vals (upcast_prop p)) as [a|elems].
   - destruct (valid_prop_dtype (a_dt a) && negb (String.eqb name "")); [|discriminate].
     intros H1 H2. inversion H1; inversion H2; subst. left. auto.
   - destruct elems as [|e r]; [discriminate|]. destruct (forallb _ r); [|discriminate].
